@@ -186,6 +186,12 @@ class World:
                     f.write(json.dumps(tpl).replace('"@RO@"', "{{ readonly }}"))
                 ConfigurationRepository.from_file(path, readonly="false")
                 be = ConfigurationRepository.from_file(path, readonly="true").clusters["c5"].storage
+            elif how == "config-reused":
+                # one configuration dictionary that says read-only, used twice: first with the documented constructor
+                # override for a writer, then as it is for the reader the operations go through
+                shared = dict(cfg, readonly=True)
+                FilesystemStorageBackend(config=shared, read_only=False)
+                be = FilesystemStorageBackend(config=shared)
             elif how == "toggle":
                 be = FilesystemStorageBackend(**kw)
                 be.read_only = True
